@@ -771,6 +771,18 @@ def rule_conserve(ctx):
                 fld = next((f_["e"] for f_ in y.get("fields") or [] if f_["name"] == "points"), None)
                 used = set(z["local"] for z in walk(fld) if z.get("k") == "Path" and z.get("local") in names) if fld is not None else set()
                 if used and used != set(names):
+                    # a leaf from one part under a test that the other part is empty loses nothing
+                    from .layout import with_parents as _wp
+                    emptied = set()
+                    for n_, anc_ in _wp(fn["body"]):
+                        if n_ is y:
+                            for a_ in anc_:
+                                if a_.get("k") == "If":
+                                    for z in walk(a_["c"]):
+                                        if z.get("k") == "MethodCall" and z["name"] == "is_empty" and peel_refs(z["recv"]).get("local") in names:
+                                            emptied.add(peel_refs(z["recv"])["local"])
+                    if set(names) - used <= emptied:
+                        continue
                     missing = sorted(names[l] for l in set(names) - used)
                     bad = (y, "a leaf built after the partition holds `%s` only: the points of `%s` are in no leaf" % (", ".join(sorted(names[l] for l in used)), ", ".join(missing)))
             elif vn == "Branch":
